@@ -19,7 +19,7 @@ def sh(cmd, cwd, env=None, timeout=1500):
 
 
 def confirm(pid):
-    base = f"/tmp/mut/{pid}/MUT"
+    base = os.path.join(os.environ.get("MUT_BASE", "/tmp/mut"), pid, "MUT")
     if not os.path.isdir(base):
         print(pid, "no MUT dir"); return
     wt = tempfile.mkdtemp(prefix=f"confirm_{pid}_", dir="/tmp")
@@ -31,7 +31,7 @@ def confirm(pid):
             d = os.path.join(base, k)
             if not os.path.isfile(os.path.join(d, "patch.diff")):
                 continue
-            sid = f"{pid}-{k}"
+            sid = f"{pid}-{os.environ.get('MUT_TAG', '')}{k}"
             if os.path.isdir(os.path.join(VERIF, "seeded", sid)):
                 print(sid, "already stored"); continue
             sh(["git", "checkout", "-q", "--", "."], wt)
